@@ -989,9 +989,16 @@ class RelStore:
             if not ms or not E().decide(z3.Or(*ms)):
                 return None
             vals, nulls = {}, {}
+            ipk = [c for c in tb.pk if tb.sort[c] == INT]
+            sel = ms
+            if len(ipk) == 1 and len(tb.rows) > 1:
+                # SQLite scans such a table in primary-key order: of several matches the smallest key wins
+                k = ipk[0]
+                sel = [z3.And(m, *[z3.Implies(m2, r.v[k] <= r2.v[k]) for r2, m2 in zip(tb.rows, ms) if r2 is not r])
+                       for r, m in zip(tb.rows, ms)]
             for c in names:
                 z, nz = tb.rows[-1].v[c], tb.rows[-1].n[c]
-                for r, m in list(zip(tb.rows, ms))[-2::-1]:
+                for r, m in list(zip(tb.rows, sel))[-2::-1]:
                     z = z3.If(m, r.v[c], z)
                     nz = z3.If(m, r.n[c], nz)
                 vals[c], nulls[c] = z3.simplify(z), z3.simplify(nz)
